@@ -89,12 +89,17 @@ def x_reobserve():
         raise Broken("obsvReqSendC.go: PostObservationRequest not found")
     pb = mp.group(1)
     if re.fullmatch(r'\s*select \{\s*case obsvReqSendC <- req:\s*return nil\s*default:\s*return ErrChanFull\s*\}', pb):
-        post_nb = True
+        post_nb, post_atomic = True, True
     elif re.fullmatch(r'\s*obsvReqSendC <- req\s*return nil', pb):
-        post_nb = False
+        post_nb, post_atomic = False, True
+    elif re.fullmatch(r'\s*if len\(obsvReqSendC\) >= cap\(obsvReqSendC\) \{\s*return ErrChanFull\s*\}\s*obsvReqSendC <- req\s*return nil', pb):
+        # fullness test and send are two steps: a single caller never blocks, two callers racing for the last slot can
+        post_nb, post_atomic = True, False
     else:
-        raise Broken("obsvReqSendC.go: PostObservationRequest body is neither the select/default nor a plain send")
+        raise Broken("obsvReqSendC.go: PostObservationRequest body is neither the select/default, a test of len/cap followed by a send, nor a plain send")
     out += "Definition obsv_req_channel_size : Z := %d.\nDefinition post_nonblocking : bool := %s.\n" % (size, "true" if post_nb else "false")
+    out += "(* the fullness test and the send are one atomic step (select with default) *)\nDefinition post_atomic : bool := %s.\n" % ("true" if post_atomic else "false")
+    info["post_atomic"] = post_atomic
     info.update(channel_size=size, post_nonblocking=post_nb)
     # --- wiring: the queues are made with these sizes, the callers use PostObservationRequest, never a raw send
     n = rd("node/cmd/guardiand/node.go")
